@@ -1,8 +1,11 @@
 import OptiModel.Model.Parax
 import OptiModel.Proofs.NumReal
+import OptiModel.Proofs.Cardinal
 import Mathlib.Tactic.FieldSimp
 import Mathlib.Tactic.Ring
 import Mathlib.Tactic.LinearCombination
+import Mathlib.Tactic.NormNum
+import Mathlib.Tactic.Linarith
 /-!
 # C04  Paraxial properties equal matrix optics
 
@@ -13,7 +16,7 @@ Specification side: 2×2 ray-transfer matrices, `T(t) = [[1,t],[0,1]]`,
 `R(n,n',c) = [[1,0],[-(n'-n)c/n', n/n']]`, mirror `[[1,0],[-2c,-1]]` (index sign reversal).
 -/
 namespace C04
-open Model
+open Model Cardinal
 
 /-- 2×2 real matrix `[[a,b],[c,d]]` -/
 structure M2 where
@@ -457,5 +460,1209 @@ example :
   constructor
   · intro s hs; simp at hs; rcases hs with rfl | rfl | rfl <;> (refine ⟨rfl, by simp, by norm_num⟩)
   · simp [Chained]
+
+/-! ## Pupils, cardinal points, marginal/chief ray, invariant, aperture and magnification
+(the model's own functions `XPL EPL f1 f2 F1 F2 P1 P2 N1 N2 marginalRay chiefRay invariant EPD FNO
+magnification` over ℝ)
+
+Layout assumed by the theorems below (optiland's): `S.surfs = obj :: … ++ [img]`, the object surface only
+records, the image surface only transfers the ray to its plane (`pstepImg`).  `pfinal r ss` is the ray
+recorded on the last surface of `ss`; on an image surface `y` is the height in the image plane.
+List plumbing (`y[-1]`, `y[k]`, `positions[k]`, `stop_index`) is in `Proofs/Cardinal.lean`. -/
+
+theorem pfinal_nil (r : PRay ℝ) : pfinal r [] = r := rfl
+theorem pfinal_cons (r : PRay ℝ) (s : PSurf ℝ) (ss : List (PSurf ℝ)) :
+    pfinal r (s :: ss) = pfinal (pstep r s) ss := rfl
+theorem pfinal_append (r : PRay ℝ) (a b : List (PSurf ℝ)) :
+    pfinal r (a ++ b) = pfinal (pfinal r a) b := by
+  simp only [pfinal, List.foldl_append]
+
+/-- one surface is linear in the ray (any kind of surface, axially symmetric) -/
+theorem pstep_lin (a b : PRay ℝ) (s : PSurf ℝ) (c1 c2 : ℝ) (hz : a.z = b.z) (hdy : s.dy = 0) :
+    pstep (lin c1 c2 a b) s = lin c1 c2 (pstep a s) (pstep b s) ∧ (pstep a s).z = (pstep b s).z := by
+  unfold pstep lin
+  cases hk : s.kind with
+  | object => exact ⟨rfl, hz⟩
+  | image =>
+    simp only [pstepImg]
+    num_real
+    rw [hdy, ← hz]
+    simp only [PRay.mk.injEq, and_true]
+    ring
+  | standard =>
+    simp only [pstepStd]
+    num_real
+    rw [hdy, ← hz]
+    rcases Bool.eq_false_or_eq_true s.refl with h | h
+    · simp only [h, if_true, PRay.mk.injEq, and_true]
+      refine ⟨by ring, by ring⟩
+    · simp only [h, Bool.false_eq_true, if_false, PRay.mk.injEq, and_true]
+      refine ⟨by ring, by ring⟩
+
+def DY0 (ss : List (PSurf ℝ)) : Prop := ∀ s ∈ ss, s.dy = 0
+
+/-- **pfinal_lin**: the ray leaving a list of axially symmetric surfaces (of any kind, image surface
+included) is linear in the launch ray -/
+theorem pfinal_lin : ∀ (ss : List (PSurf ℝ)) (a b : PRay ℝ) (c1 c2 : ℝ), a.z = b.z → DY0 ss →
+    pfinal (lin c1 c2 a b) ss = lin c1 c2 (pfinal a ss) (pfinal b ss) ∧ (pfinal a ss).z = (pfinal b ss).z
+  | [], a, b, c1, c2, hz, _ => ⟨rfl, hz⟩
+  | s :: ss, a, b, c1, c2, hz, h => by
+    obtain ⟨h1, h2⟩ := pstep_lin a b s c1 c2 hz (h s (by simp))
+    simp only [pfinal_cons]
+    rw [h1]
+    exact pfinal_lin ss _ _ c1 c2 h2 (fun t ht => h t (by simp [ht]))
+
+/-- scaling the launch ray scales the outgoing ray -/
+theorem pfinal_scale (ss : List (PSurf ℝ)) (y u z c : ℝ) (h : DY0 ss) :
+    (pfinal ⟨c * y, c * u, z⟩ ss).y = c * (pfinal ⟨y, u, z⟩ ss).y ∧
+    (pfinal ⟨c * y, c * u, z⟩ ss).u = c * (pfinal ⟨y, u, z⟩ ss).u := by
+  have := (pfinal_lin ss ⟨y, u, z⟩ ⟨y, u, z⟩ c 0 rfl h).1
+  have e : lin c 0 ⟨y, u, z⟩ ⟨y, u, z⟩ = ⟨c * y, c * u, z⟩ := by
+    simp only [lin, PRay.mk.injEq, and_true]; constructor <;> ring
+  rw [e] at this
+  rw [this]
+  simp only [lin]
+  constructor <;> ring
+
+theorem XPL_is_stop_conjugate (S : PSys ℝ) (front back : List (PSurf ℝ)) (stop img : PSurf ℝ)
+    (hS : S.surfs = front ++ stop :: (back ++ [img]))
+    (hfront : ∀ s ∈ front, s.stop = false) (hstop : stop.stop = true)
+    (hdy : DY0 back) (himg : img.kind = .image) (himgdy : img.dy = 0)
+    (hu : back ≠ [] → (pfinal ⟨0, 1/10, stop.z⟩ (back ++ [img])).u ≠ 0)
+    (u0 : ℝ) :
+    let rf := pfinal ⟨0, u0, stop.z⟩ (back ++ [img])
+    rf.y + XPL S * rf.u = 0 := by
+  intro rf
+  have hsi : stopIndex S.surfs = some front.length := by
+    rw [hS]; exact stopIndex_append front stop _ hfront hstop
+  have hlen : S.surfs.length = front.length + (back.length + 2) := by
+    rw [hS]; simp; 
+  unfold XPL
+  simp only [hsi, Option.getD_some, hlen]
+  by_cases hb : back = []
+  · subst hb
+    rw [if_pos (by simp)]
+    have p1 : posOf S.surfs (front.length + (([]:List (PSurf ℝ)).length + 2) - 2) = stop.z := by
+      rw [hS]; simpa using posOf_append front stop [img]
+    have p2 : posOf S.surfs (front.length + (([]:List (PSurf ℝ)).length + 2) - 1) = img.z := by
+      rw [hS]
+      have := posOf_append (front ++ [stop]) img []
+      simpa using this
+    rw [p1, p2]
+    simp only [rf, List.nil_append, pfinal, List.foldl_cons, List.foldl_nil, pstep, himg, pstepImg]
+    num_real
+    rw [himgdy]; ring
+  · have hl : 0 < back.length := List.length_pos_of_ne_nil hb
+    rw [if_neg (by omega)]
+    have hdrop : S.surfs.drop (front.length + 1) = back ++ [img] := by
+      rw [hS]
+      rw [show front ++ stop :: (back ++ [img]) = (front ++ [stop]) ++ (back ++ [img]) by simp]
+      rw [List.drop_append_of_le_length (by simp)]
+      simp
+    simp only [traceGeneric, Bool.false_eq_true, if_false, hdrop]
+    rw [last_ys _ _ (by simp), last_us _ _ (by simp), hS, posOf_append]
+    have hd : DY0 (back ++ [img]) := by
+      intro s hs
+      rcases List.mem_append.mp hs with h | h
+      · exact hdy s h
+      · simp at h; rw [h]; exact himgdy
+    have hsc := pfinal_scale (back ++ [img]) 0 (1/10) stop.z (10 * u0) hd
+    have e : (⟨10 * u0 * 0, 10 * u0 * (1/10), stop.z⟩ : PRay ℝ) = ⟨0, u0, stop.z⟩ := by
+      simp only [PRay.mk.injEq, and_true]; constructor <;> ring
+    rw [e] at hsc
+    have hu' := hu hb
+    simp only [rf, tenth]
+    num_real
+    have e10 : ((1:ℕ):ℝ) / ((10:ℕ):ℝ) = 1/10 := by norm_num
+    rw [e10]
+    show (pfinal ⟨0, u0, stop.z⟩ (back ++ [img])).y + -(pfinal ⟨0, 1/10, stop.z⟩ (back ++ [img])).y /
+      (pfinal ⟨0, 1/10, stop.z⟩ (back ++ [img])).u * (pfinal ⟨0, u0, stop.z⟩ (back ++ [img])).u = 0
+    rw [hsc.1, hsc.2]
+    field_simp
+    ring
+
+/-- launch ray of `Paraxial.marginal_ray` -/
+noncomputable def marginalLaunch (S : PSys ℝ) : PRay ℝ :=
+  if S.objInf then ⟨EPD S / 2, 0, posOf S.surfs 1 - 10⟩
+  else ⟨0, EPD S / (2 * (EPL S - posOf S.surfs 0)), posOf S.surfs 0⟩
+
+theorem marginalRay_eq (S : PSys ℝ) : marginalRay S = ptrace (marginalLaunch S) S.surfs := by
+  unfold marginalRay marginalLaunch traceGeneric
+  num_real
+  cases S.objInf <;> simp
+
+/-- the reverse trace from the stop centre that `EPL` and `chief_ray` perform (last record) -/
+noncomputable def stopBack (S : PSys ℝ) (u : ℝ) : List (PRay ℝ) :=
+  let inv := inverted S.surfs
+  let si := (stopIndex inv).getD 0
+  traceGeneric S.surfs 0 u (posOf inv si) true (si + 1)
+
+/-- the slope `u1` that `chief_ray` gives the second reverse trace -/
+noncomputable def chiefU1 (S : PSys ℝ) : ℝ :=
+  match S.fieldType with
+  | .objectHeight =>
+    1/10 * S.maxYField / (last (ys (stopBack S (1/10))) + last (us (stopBack S (1/10))) *
+      (posOf S.surfs 1 - posOf S.surfs 0))
+  | .angle => 1/10 * Real.tan (S.maxYField * (Real.pi / 180)) / last (us (stopBack S (1/10)))
+
+/-- launch ray of the forward trace in `Paraxial.chief_ray` -/
+noncomputable def chiefLaunch (S : PSys ℝ) : PRay ℝ :=
+  ⟨-last (ys (stopBack S (chiefU1 S))), last (us (stopBack S (chiefU1 S))), posOf S.surfs 1⟩
+
+theorem tenth_eq : (tenth : ℝ) = 1/10 := by
+  unfold tenth; num_real; norm_num
+
+theorem chiefRay_eq (S : PSys ℝ) : chiefRay S = ptrace (chiefLaunch S) S.surfs := by
+  unfold chiefRay chiefLaunch chiefU1 stopBack deg2rad
+  simp only [tenth_eq]
+  num_real
+  simp only [traceGeneric, Bool.false_eq_true, if_false, List.drop_zero, if_true, Nat.cast_ofNat,
+    Nat.cast_one, div_one]
+  cases S.fieldType <;> rfl
+
+theorem EPL_eq (S : PSys ℝ) (h : stopIndex S.surfs ≠ some 0) :
+    EPL S = last (ys (stopBack S (1/10))) / last (us (stopBack S (1/10))) := by
+  unfold EPL stopBack
+  simp only [tenth_eq]
+
+
+/-- **invariant_is_lagrange**: `Paraxial.invariant` is `n (ȳ u − y ū)` of the model's marginal ray
+`(y,u)` and chief ray `(ȳ,ū)` in the medium behind surface 1 (`lag 1 n₁ a₁ b₁`; the property text writes
+the opposite overall sign, `n (ū y − u ȳ)`), and the same value is found behind every later surface
+(with the orientation sign `σ` that flips at each mirror). -/
+theorem invariant_is_lagrange (S : PSys ℝ) (obj s1 : PSurf ℝ) (rest : List (PSurf ℝ))
+    (hS : S.surfs = obj :: s1 :: rest) (hobj : obj.kind = .object) (hk : s1.kind = .standard)
+    (hch : Chained s1.n2 rest) (hwf : WFL rest) :
+    let a1 := pstep (marginalLaunch S) s1
+    let b1 := pstep (chiefLaunch S) s1
+    marginalRay S = marginalLaunch S :: a1 :: ptrace a1 rest ∧
+    chiefRay S = chiefLaunch S :: b1 :: ptrace b1 rest ∧
+    invariant S = s1.n2 * (b1.y * a1.u - a1.y * b1.u) ∧
+    AllInv 1 (invariant S) rest (ptrace a1 rest) (ptrace b1 rest) := by
+  intro a1 b1
+  have ha : marginalRay S = marginalLaunch S :: a1 :: ptrace a1 rest := by
+    rw [marginalRay_eq, hS]; simp only [ptrace, pstep, hobj, a1]
+  have hb : chiefRay S = chiefLaunch S :: b1 :: ptrace b1 rest := by
+    rw [chiefRay_eq, hS]; simp only [ptrace, pstep, hobj, b1]
+  have hinv : invariant S = s1.n2 * (b1.y * a1.u - a1.y * b1.u) := by
+    unfold invariant
+    rw [ha, hb]
+    simp only [nList, hS, nth, ys, us, List.map_cons, List.getD_cons_succ, List.getD_cons_zero]
+    num_real
+    ring
+  refine ⟨ha, hb, hinv, ?_⟩
+  have hz : a1.z = b1.z := by
+    simp only [a1, b1, pstep, hk, pstepStd_z]
+  have := lagrange_invariant rest a1 b1 1 s1.n2 hz hch hwf
+  have e : lag 1 s1.n2 a1 b1 = invariant S := by rw [hinv]; simp only [lag]; ring
+  rw [e] at this
+  exact this
+
+
+theorem drop_append_cons {β : Type} (a : List β) (s : β) (b : List β) :
+    (a ++ s :: b).drop (a.length + 1) = b := by
+  rw [show a ++ s :: b = (a ++ [s]) ++ b by simp]
+  rw [List.drop_append_of_le_length (by simp)]
+  simp
+
+theorem rv_rv (zl : ℝ) (s : PSurf ℝ) : rv zl (rv zl s) = s := by
+  cases s
+  simp only [rv, PSurf.mk.injEq, true_and, and_true]
+  constructor <;> ring
+
+theorem rv_involution (zl : ℝ) (L : List (PSurf ℝ)) : (L.reverse.map (rv zl)).reverse.map (rv zl) = L := by
+  rw [← List.map_reverse, List.reverse_reverse, List.map_map]
+  have : rv zl ∘ rv zl = id := by funext s; exact rv_rv zl s
+  rw [this, List.map_id]
+
+theorem Std_rv (zl : ℝ) (L : List (PSurf ℝ)) (h : Std L) : Std (L.reverse.map (rv zl)) := by
+  intro s hs
+  obtain ⟨t, ht, hts⟩ := List.mem_map.mp hs
+  have := h t (List.mem_reverse.mp ht)
+  rw [← hts]
+  exact ⟨this.1, this.2.1, this.2.2.2, this.2.2.1⟩
+
+theorem pfinal_z (L : List (PSurf ℝ)) (s : PSurf ℝ) (r : PRay ℝ) (hs : s.kind = .standard) :
+    (pfinal r (L ++ [s])).z = s.z := by
+  rw [pfinal_append]
+  simp only [pfinal, List.foldl_cons, List.foldl_nil, pstep, hs, pstepStd_z]
+
+/-- what the reverse trace from the stop centre returns as `y[-1]`, `u[-1]`: the ray leaving the
+inverted front group (the surfaces between object and stop) -/
+theorem stopBack_last (S : PSys ℝ) (obj stop l : PSurf ℝ) (front back : List (PSurf ℝ))
+    (hS : S.surfs = obj :: front ++ stop :: back) (hl : S.surfs.getLast? = some l)
+    (hobj : obj.kind = .object) (hstop : stop.stop = true) (hback : ∀ s ∈ back, s.stop = false) (u : ℝ) :
+    last (ys (stopBack S u)) = (pfinal ⟨0, u, l.z - stop.z⟩ (front.reverse.map (rv l.z))).y ∧
+    last (us (stopBack S u)) = (pfinal ⟨0, u, l.z - stop.z⟩ (front.reverse.map (rv l.z))).u := by
+  have hinv : inverted S.surfs = (back.reverse.map (rv l.z)) ++ rv l.z stop ::
+      (front.reverse.map (rv l.z) ++ [rv l.z obj]) := by
+    rw [inverted_eq S.surfs l hl, hS]
+    simp [List.reverse_append, List.map_append]
+  have hlen : (back.reverse.map (rv l.z)).length = back.length := by simp
+  have hsi : stopIndex (inverted S.surfs) = some back.length := by
+    rw [hinv, ← hlen]
+    apply stopIndex_append
+    · intro x hx
+      obtain ⟨t, ht, htx⟩ := List.mem_map.mp hx
+      rw [← htx]; exact hback t (List.mem_reverse.mp ht)
+    · exact hstop
+  have hpos : posOf (inverted S.surfs) back.length = l.z - stop.z := by
+    rw [hinv, ← hlen, posOf_append]; rfl
+  have hdrop : (inverted S.surfs).drop (back.length + 1) = front.reverse.map (rv l.z) ++ [rv l.z obj] := by
+    rw [hinv, ← hlen, drop_append_cons]
+  simp only [stopBack, traceGeneric, if_true, hsi, Option.getD_some, hpos, hdrop]
+  rw [last_ys _ _ (by simp), last_us _ _ (by simp)]
+  have : ∀ r : PRay ℝ, List.foldl pstep r (front.reverse.map (rv l.z) ++ [rv l.z obj]) =
+      pfinal r (front.reverse.map (rv l.z)) := by
+    intro r
+    rw [List.foldl_append]
+    have hk : (rv l.z obj).kind = .object := hobj
+    simp only [List.foldl_cons, List.foldl_nil, pstep, hk, pfinal]
+  rw [this]
+  exact ⟨rfl, rfl⟩
+
+
+theorem pfinal_scale_z (ss : List (PSurf ℝ)) (y u z c : ℝ) (h : DY0 ss) :
+    (pfinal ⟨c * y, c * u, z⟩ ss).z = (pfinal ⟨y, u, z⟩ ss).z := by
+  have := (pfinal_lin ss ⟨y, u, z⟩ ⟨y, u, z⟩ c 0 rfl h).1
+  have e : lin c 0 ⟨y, u, z⟩ ⟨y, u, z⟩ = ⟨c * y, c * u, z⟩ := by
+    simp only [lin, PRay.mk.injEq, and_true]; constructor <;> ring
+  rw [e] at this
+  rw [this]
+  simp only [lin]
+
+/-- sliding the launch point along the ray does not change the trace (first surface standard) -/
+theorem pfinal_slide (s1 : PSurf ℝ) (fs : List (PSurf ℝ)) (y u z z' : ℝ) (hk : s1.kind = .standard) :
+    pfinal ⟨y, u, z⟩ (s1 :: fs) = pfinal ⟨y + (z' - z) * u, u, z'⟩ (s1 :: fs) := by
+  simp only [pfinal_cons, pstep, hk]
+  rw [pstepStd_slide y u z z']
+
+theorem Std_DY0 (L : List (PSurf ℝ)) (h : Std L) : DY0 L := fun s hs => (h s hs).2.1
+
+/-- **time reversal, converse direction**: take the ray that leaves the inverted front group when
+launched from the stop centre, reverse it and trace it forward through the front group: it comes back
+to the stop centre. -/
+theorem front_roundtrip (s1 : PSurf ℝ) (fs : List (PSurf ℝ)) (zl zs u : ℝ) (hstd : Std (s1 :: fs)) :
+    let e := pfinal ⟨0, u, zl - zs⟩ ((s1 :: fs).reverse.map (rv zl))
+    let g := pfinal ⟨e.y, -e.u, s1.z⟩ (s1 :: fs)
+    g.y + (zs - g.z) * g.u = 0 := by
+  intro e g
+  have hstd' := Std_rv zl (s1 :: fs) hstd
+  have hinv := rv_involution zl (s1 :: fs)
+  have hez : e.z = zl - s1.z := by
+    simp only [e, List.reverse_cons, List.map_append, List.map_cons, List.map_nil]
+    rw [pfinal_z _ _ _ (show (rv zl s1).kind = .standard from (hstd s1 (by simp)).1)]
+    rfl
+  cases hFR : (s1 :: fs).reverse.map (rv zl) with
+  | nil => simp at hFR
+  | cons t1 ts =>
+    rw [hFR] at hstd' hinv
+    have hrt := reverse_trace ts t1 ⟨0, u, zl - zs⟩ zl hstd'
+    simp only at hrt
+    rw [hinv, ← hFR] at hrt
+    have hg : g = ⟨0 + (t1.z - (zl - zs)) * u, -u, zl - t1.z⟩ := by
+      rw [← hrt]
+      simp only [g]
+      congr 2
+      rw [show pfinal ⟨0, u, zl - zs⟩ ((s1 :: fs).reverse.map (rv zl)) = e from rfl, hez]
+      ring
+    rw [hg]
+    ring
+
+/-- **chiefRay_def**: the chief ray the model returns has height 0 on the stop surface, whatever the
+field type and field value. -/
+theorem chiefRay_def (S : PSys ℝ) (obj stop l : PSurf ℝ) (front back : List (PSurf ℝ))
+    (hS : S.surfs = obj :: front ++ stop :: back) (hl : S.surfs.getLast? = some l)
+    (hobj : obj.kind = .object) (hstop : stop.stop = true) (hback : ∀ s ∈ back, s.stop = false)
+    (hstd : Std front) (hsk : stop.kind = .standard) :
+    nth (ys (chiefRay S)) (front.length + 1) = 0 := by
+  rw [chiefRay_eq, hS]
+  have := nth_ys_append (chiefLaunch S) (obj :: front) stop back
+  simp only [List.length_cons] at this
+  rw [this]
+  simp only [List.foldl_cons, pstep, hobj, hsk]
+  obtain ⟨hy, hu⟩ := stopBack_last S obj stop l front back hS hl hobj hstop hback (chiefU1 S)
+  unfold chiefLaunch
+  rw [hy, hu]
+  cases front with
+  | nil =>
+    have hp : posOf S.surfs 1 = stop.z := by rw [hS]; simp [posOf]
+    rw [hp]
+    simp only [List.reverse_nil, List.map_nil, pfinal_nil, List.foldl_nil, pstepStd]
+    num_real
+    ring
+  | cons s1 fs =>
+    have hp : posOf S.surfs 1 = s1.z := by rw [hS]; simp [posOf]
+    rw [hp]
+    have hrt := front_roundtrip s1 fs l.z stop.z (chiefU1 S) hstd
+    simp only at hrt
+    set e := pfinal ⟨0, chiefU1 S, l.z - stop.z⟩ ((s1 :: fs).reverse.map (rv l.z)) with he
+    have hd := Std_DY0 _ hstd
+    have h1 := pfinal_scale (s1 :: fs) e.y (-e.u) s1.z (-1) hd
+    have h2 := pfinal_scale_z (s1 :: fs) e.y (-e.u) s1.z (-1) hd
+    have e1 : (⟨-1 * e.y, -1 * -e.u, s1.z⟩ : PRay ℝ) = ⟨-e.y, e.u, s1.z⟩ := by
+      simp only [PRay.mk.injEq, and_true]; constructor <;> ring
+    rw [e1] at h1 h2
+    show (pstepStd (pfinal ⟨-e.y, e.u, s1.z⟩ (s1 :: fs)) stop).y = 0
+    simp only [pstepStd]
+    num_real
+    rw [h1.1, h1.2, h2]
+    linear_combination (-1) * hrt
+
+
+/-- **EPL (the model's function) is the stop conjugate**: every forward ray launched from the axial point
+`EPL S` behind the first vertex passes, after the surfaces in front of the stop, through the centre of the
+stop.  Guard `hu`: the reverse ray of slope 0.1 does not leave the front group parallel to the axis
+(entrance pupil at infinity: the code divides by `u[-1] = 0`). -/
+theorem EPL_model_is_stop_conjugate (S : PSys ℝ) (obj stop l : PSurf ℝ) (front back : List (PSurf ℝ))
+    (hS : S.surfs = obj :: front ++ stop :: back) (hl : S.surfs.getLast? = some l)
+    (hobj : obj.kind = .object) (hos : obj.stop = false) (hstop : stop.stop = true)
+    (hback : ∀ s ∈ back, s.stop = false) (hstd : Std front)
+    (hu : (pfinal ⟨0, 1/10, l.z - stop.z⟩ (front.reverse.map (rv l.z))).u ≠ 0) (u0 : ℝ) :
+    let g := pfinal ⟨0, u0, posOf S.surfs 1 + EPL S⟩ front
+    g.y + (stop.z - g.z) * g.u = 0 := by
+  intro g
+  have hsi : stopIndex S.surfs ≠ some 0 := by
+    rw [hS]; simp [stopIndex, List.findIdx?_cons, hos]
+  obtain ⟨hy, hu'⟩ := stopBack_last S obj stop l front back hS hl hobj hstop hback (1/10)
+  have hE := EPL_eq S hsi
+  rw [hy, hu'] at hE
+  simp only [g, hE]
+  cases front with
+  | nil =>
+    have hp : posOf S.surfs 1 = stop.z := by rw [hS]; simp [posOf]
+    simp [hp, pfinal_nil]
+  | cons s1 fs =>
+    have hp : posOf S.surfs 1 = s1.z := by rw [hS]; simp [posOf]
+    rw [hp]
+    have hrt := front_roundtrip s1 fs l.z stop.z (1/10) hstd
+    simp only at hrt
+    set e := pfinal ⟨0, 1/10, l.z - stop.z⟩ ((s1 :: fs).reverse.map (rv l.z)) with he
+    have hd := Std_DY0 _ hstd
+    have h1 := pfinal_scale (s1 :: fs) e.y (-e.u) s1.z (-u0 / e.u) hd
+    have h2 := pfinal_scale_z (s1 :: fs) e.y (-e.u) s1.z (-u0 / e.u) hd
+    rw [pfinal_slide s1 fs 0 u0 (s1.z + e.y / e.u) s1.z (hstd s1 (by simp)).1]
+    have e1 : (⟨0 + (s1.z - (s1.z + e.y / e.u)) * u0, u0, s1.z⟩ : PRay ℝ) =
+        ⟨-u0 / e.u * e.y, -u0 / e.u * -e.u, s1.z⟩ := by
+      simp only [PRay.mk.injEq, and_true]; constructor <;> field_simp <;> ring
+    rw [e1, h1.1, h1.2, h2]
+    linear_combination (-u0 / e.u) * hrt
+
+/-- **marginalRay_def** (object at infinity): the marginal ray is the trace of a ray parallel to the axis
+at height `EPD/2` — its height in object space, in particular in the entrance-pupil plane, is `EPD/2`. -/
+theorem marginalRay_def_infinite (S : PSys ℝ) (hinf : S.objInf = true) :
+    marginalRay S = ptrace (marginalLaunch S) S.surfs ∧ (marginalLaunch S).u = 0 ∧
+    ∀ z, (marginalLaunch S).y + (z - (marginalLaunch S).z) * (marginalLaunch S).u = EPD S / 2 := by
+  refine ⟨marginalRay_eq S, ?_, ?_⟩ <;> simp [marginalLaunch, hinf]
+
+/-- **marginalRay_def** (finite object): the marginal ray starts on the axis in the object plane and
+has height `EPD/2` in the plane `z = EPL S`.  (`EPL` is measured from the first vertex; the code uses it as
+a global coordinate, which is the entrance-pupil plane when the first surface sits at `z = 0` —
+optiland's convention.)  Guard: the pupil is not in the object plane (the code divides by `EPL − z_obj`). -/
+theorem marginalRay_def_finite (S : PSys ℝ) (hfin : S.objInf = false) (hz : EPL S ≠ posOf S.surfs 0) :
+    marginalRay S = ptrace (marginalLaunch S) S.surfs ∧ (marginalLaunch S).y = 0 ∧
+    (marginalLaunch S).z = posOf S.surfs 0 ∧
+    (marginalLaunch S).y + (EPL S - (marginalLaunch S).z) * (marginalLaunch S).u = EPD S / 2 := by
+  refine ⟨marginalRay_eq S, ?_, ?_, ?_⟩ <;> simp only [marginalLaunch, hfin, Bool.false_eq_true, if_false]
+  have : EPL S - posOf S.surfs 0 ≠ 0 := sub_ne_zero.mpr hz
+  field_simp
+  ring
+
+/-- field angle: the chief ray enters with slope `tan(field angle)` -/
+theorem chiefRay_field_angle (S : PSys ℝ) (obj stop l : PSurf ℝ) (front back : List (PSurf ℝ))
+    (hS : S.surfs = obj :: front ++ stop :: back) (hl : S.surfs.getLast? = some l)
+    (hobj : obj.kind = .object) (hstop : stop.stop = true) (hback : ∀ s ∈ back, s.stop = false)
+    (hstd : Std front) (hft : S.fieldType = .angle)
+    (hu : (pfinal ⟨0, 1/10, l.z - stop.z⟩ (front.reverse.map (rv l.z))).u ≠ 0) :
+    (chiefLaunch S).u = Real.tan (S.maxYField * (Real.pi / 180)) := by
+  obtain ⟨_, hu1⟩ := stopBack_last S obj stop l front back hS hl hobj hstop hback (1/10)
+  obtain ⟨_, hu2⟩ := stopBack_last S obj stop l front back hS hl hobj hstop hback (chiefU1 S)
+  have hd := Std_DY0 _ (Std_rv l.z front hstd)
+  have hsc := pfinal_scale (front.reverse.map (rv l.z)) 0 (1/10) (l.z - stop.z) (10 * chiefU1 S) hd
+  have e : (⟨10 * chiefU1 S * 0, 10 * chiefU1 S * (1/10), l.z - stop.z⟩ : PRay ℝ) =
+      ⟨0, chiefU1 S, l.z - stop.z⟩ := by
+    simp only [PRay.mk.injEq, and_true]; constructor <;> ring
+  rw [e] at hsc
+  simp only [chiefLaunch]
+  rw [hu2, hsc.2]
+  simp only [chiefU1, hft]
+  rw [hu1]
+  field_simp
+
+/-- object-height field: the chief ray comes from the object point at height `−maxYField` -/
+theorem chiefRay_field_height (S : PSys ℝ) (obj stop l : PSurf ℝ) (front back : List (PSurf ℝ))
+    (hS : S.surfs = obj :: front ++ stop :: back) (hl : S.surfs.getLast? = some l)
+    (hobj : obj.kind = .object) (hstop : stop.stop = true) (hback : ∀ s ∈ back, s.stop = false)
+    (hstd : Std front) (hft : S.fieldType = .objectHeight)
+    (hden : (pfinal ⟨0, 1/10, l.z - stop.z⟩ (front.reverse.map (rv l.z))).y +
+      (pfinal ⟨0, 1/10, l.z - stop.z⟩ (front.reverse.map (rv l.z))).u * (posOf S.surfs 1 - posOf S.surfs 0) ≠ 0) :
+    (chiefLaunch S).y + (posOf S.surfs 0 - (chiefLaunch S).z) * (chiefLaunch S).u = -S.maxYField := by
+  obtain ⟨hy1, hu1⟩ := stopBack_last S obj stop l front back hS hl hobj hstop hback (1/10)
+  obtain ⟨hy2, hu2⟩ := stopBack_last S obj stop l front back hS hl hobj hstop hback (chiefU1 S)
+  have hd := Std_DY0 _ (Std_rv l.z front hstd)
+  have hsc := pfinal_scale (front.reverse.map (rv l.z)) 0 (1/10) (l.z - stop.z) (10 * chiefU1 S) hd
+  have e : (⟨10 * chiefU1 S * 0, 10 * chiefU1 S * (1/10), l.z - stop.z⟩ : PRay ℝ) =
+      ⟨0, chiefU1 S, l.z - stop.z⟩ := by
+    simp only [PRay.mk.injEq, and_true]; constructor <;> ring
+  rw [e] at hsc
+  simp only [chiefLaunch]
+  rw [hy2, hu2, hsc.1, hsc.2]
+  simp only [chiefU1, hft]
+  rw [hy1, hu1]
+  field_simp
+  ring
+
+
+/-! ### demonstration systems for the non-vacuity examples: a thick biconvex singlet (R = ±50, t = 5,
+n = 3/2), finite object at z = −100, image surface in the paraxial image plane z = 105 (1:1 imaging); `demo` has the stop (a plane dummy surface)
+behind the lens, `demo2` in front of it. -/
+noncomputable def dObj : PSurf ℝ := ⟨.object, 0, -100, 0, 1, 1, false, false⟩
+noncomputable def dS1 : PSurf ℝ := ⟨.standard, 0, 0, 50, 1, 3/2, false, false⟩
+noncomputable def dS2 : PSurf ℝ := ⟨.standard, 0, 5, -50, 3/2, 1, false, false⟩
+noncomputable def dStop : PSurf ℝ := ⟨.standard, 0, 10, 0, 1, 1, false, true⟩
+noncomputable def dStopF : PSurf ℝ := ⟨.standard, 0, -5, 0, 1, 1, false, true⟩
+noncomputable def dImg : PSurf ℝ := ⟨.image, 0, 105, 0, 1, 1, false, false⟩
+noncomputable def demo : PSys ℝ := ⟨[dObj, dS1, dS2, dStop, dImg], .EPD, 10, .angle, 5, false⟩
+noncomputable def demo2 : PSys ℝ := ⟨[dObj, dStopF, dS1, dS2, dImg], .EPD, 10, .objectHeight, 5, false⟩
+
+theorem demo_std : Std [dS1, dS2] := by
+  intro s hs; simp at hs
+  rcases hs with rfl | rfl <;> simp [dS1, dS2]
+
+/-- non-vacuity of `XPL_is_stop_conjugate`, special branch (stop is the last surface before the image) -/
+example (u0 : ℝ) : (pfinal ⟨0, u0, dStop.z⟩ ([] ++ [dImg])).y + XPL demo * (pfinal ⟨0, u0, dStop.z⟩ ([] ++ [dImg])).u = 0 :=
+  XPL_is_stop_conjugate demo [dObj, dS1, dS2] [] dStop dImg rfl (by simp [dObj, dS1, dS2]) rfl
+    (by simp [DY0]) rfl rfl (by simp) u0
+
+/-- non-vacuity of `XPL_is_stop_conjugate`, general branch (two refracting surfaces behind the stop) -/
+example (u0 : ℝ) : (pfinal ⟨0, u0, dStopF.z⟩ ([dS1, dS2] ++ [dImg])).y +
+    XPL demo2 * (pfinal ⟨0, u0, dStopF.z⟩ ([dS1, dS2] ++ [dImg])).u = 0 :=
+  XPL_is_stop_conjugate demo2 [dObj] [dS1, dS2] dStopF dImg rfl (by simp [dObj]) rfl
+    (Std_DY0 _ demo_std) rfl rfl (by
+      intro _
+      simp only [pfinal, List.cons_append, List.nil_append, List.foldl_cons, List.foldl_nil, pstep, pstepStd,
+        pstepImg, dS1, dS2, dImg, dStopF]
+      num_real
+      norm_num) u0
+
+
+theorem demo_last : demo.surfs.getLast? = some dImg := rfl
+theorem demo2_last : demo2.surfs.getLast? = some dImg := rfl
+
+/-- the reverse ray from the stop centre of `demo` leaves the lens towards the axis point 4900/521 behind
+the first vertex -/
+theorem demo_back : (pfinal ⟨0, 1/10, dImg.z - dStop.z⟩ ([dS1, dS2].reverse.map (rv dImg.z))).u = 521/6000 ∧
+    (pfinal ⟨0, 1/10, dImg.z - dStop.z⟩ ([dS1, dS2].reverse.map (rv dImg.z))).y = 49/60 := by
+  simp only [pfinal, List.reverse_cons, List.reverse_nil, List.nil_append, List.cons_append, List.map_cons,
+    List.map_nil, List.foldl_cons, List.foldl_nil, pstep, pstepStd, rv, dS1, dS2, dImg, dStop]
+  num_real
+  norm_num
+
+theorem demo_EPL : EPL demo = 4900/521 := by
+  have hsi : stopIndex demo.surfs ≠ some 0 := by
+    simp [demo, stopIndex, List.findIdx?_cons, dObj, dS1, dS2, dStop]
+  rw [EPL_eq demo hsi]
+  obtain ⟨hy, hu⟩ := stopBack_last demo dObj dStop dImg [dS1, dS2] [dImg] rfl demo_last rfl rfl
+    (by simp [dImg]) (1/10)
+  rw [hy, hu, demo_back.1, demo_back.2]
+  norm_num
+
+/-- non-vacuity of `EPL_model_is_stop_conjugate` -/
+example (u0 : ℝ) : (pfinal ⟨0, u0, posOf demo.surfs 1 + EPL demo⟩ [dS1, dS2]).y +
+    (dStop.z - (pfinal ⟨0, u0, posOf demo.surfs 1 + EPL demo⟩ [dS1, dS2]).z) *
+      (pfinal ⟨0, u0, posOf demo.surfs 1 + EPL demo⟩ [dS1, dS2]).u = 0 :=
+  EPL_model_is_stop_conjugate demo dObj dStop dImg [dS1, dS2] [dImg] rfl demo_last rfl rfl rfl
+    (by simp [dImg]) demo_std (by rw [demo_back.1]; norm_num) u0
+
+/-- non-vacuity of `chiefRay_def`: stop behind the lens, and stop in front of it (empty front group) -/
+example : nth (ys (chiefRay demo)) 3 = 0 :=
+  chiefRay_def demo dObj dStop dImg [dS1, dS2] [dImg] rfl demo_last rfl rfl (by simp [dImg]) demo_std rfl
+example : nth (ys (chiefRay demo2)) 1 = 0 :=
+  chiefRay_def demo2 dObj dStopF dImg [] [dS1, dS2, dImg] rfl demo2_last rfl rfl
+    (by simp [dImg, dS1, dS2]) (by intro s hs; simp at hs) rfl
+
+/-- non-vacuity of `chiefRay_field_angle` -/
+example : (chiefLaunch demo).u = Real.tan (5 * (Real.pi / 180)) :=
+  chiefRay_field_angle demo dObj dStop dImg [dS1, dS2] [dImg] rfl demo_last rfl rfl (by simp [dImg])
+    demo_std rfl (by rw [demo_back.1]; norm_num)
+
+/-- non-vacuity of `chiefRay_field_height` (`demo2`: the stop is the first surface, empty front group) -/
+example : (chiefLaunch demo2).y + (posOf demo2.surfs 0 - (chiefLaunch demo2).z) * (chiefLaunch demo2).u = -5 :=
+  chiefRay_field_height demo2 dObj dStopF dImg [] [dS1, dS2, dImg] rfl demo2_last rfl rfl
+    (by simp [dImg, dS1, dS2]) (by intro s hs; simp at hs) rfl (by
+      simp [pfinal_nil, posOf, demo2, dObj, dStopF]; norm_num)
+
+/-- non-vacuity of `marginalRay_def_finite` -/
+example : (marginalLaunch demo).y + (EPL demo - (marginalLaunch demo).z) * (marginalLaunch demo).u = EPD demo / 2 :=
+  (marginalRay_def_finite demo rfl (by rw [demo_EPL]; simp [posOf, demo, dObj]; norm_num)).2.2.2
+
+/-- non-vacuity of `marginalRay_def_infinite` -/
+example : (marginalLaunch { demo with objInf := true }).u = 0 :=
+  (marginalRay_def_infinite { demo with objInf := true } rfl).2.1
+
+/-- non-vacuity of `invariant_is_lagrange` -/
+example : AllInv 1 (invariant demo) [dS2, dStop, dImg]
+    (ptrace (pstep (marginalLaunch demo) dS1) [dS2, dStop, dImg])
+    (ptrace (pstep (chiefLaunch demo) dS1) [dS2, dStop, dImg]) :=
+  (invariant_is_lagrange demo dObj dS1 [dS2, dStop, dImg] rfl rfl rfl
+    (by simp [Chained, dS1, dS2, dStop, dImg])
+    (by intro s hs; simp at hs; rcases hs with rfl | rfl | rfl <;> simp [dS2, dStop, dImg])).2.2.2
+
+
+theorem Std_WF (L : List (PSurf ℝ)) (h : Std L) : WF L := fun s hs =>
+  ⟨(h s hs).2.1, by rw [(h s hs).1]; simp, (h s hs).2.2.2⟩
+
+/-- the ray leaving a list of surfaces is the system matrix applied to the launch ray -/
+theorem pfinal_eq_sysMat (L : List (PSurf ℝ)) (r : PRay ℝ) (hwf : WF L) (hne : L ≠ []) :
+    (pfinal r L).y = (sysMat r.z L).a * r.y + (sysMat r.z L).b * r.u ∧
+    (pfinal r L).u = (sysMat r.z L).c * r.y + (sysMat r.z L).d * r.u := by
+  have h1 := ptrace_getLast? r L hne
+  rw [ptrace_eq_matrix' L r hwf] at h1
+  have h2 := mrecs_last L M2.one r.z r.y r.u hne
+  rw [mul_one', List.getLast?_map, h1] at h2
+  simp only [Option.map_some, Option.some.injEq, M2.ap, Prod.mk.injEq] at h2
+  exact h2
+
+theorem pfinal_z_last (L : List (PSurf ℝ)) (sk : PSurf ℝ) (r : PRay ℝ) (hstd : Std L)
+    (hk : L.getLast? = some sk) : (pfinal r L).z = sk.z := by
+  obtain ⟨init, rfl⟩ := List.getLast?_eq_some_iff.mp hk
+  exact pfinal_z init sk r (hstd sk (by simp)).1
+
+/-- the four traces behind `f2`, `F2`, `f1`, `F1`, as rays leaving the lens `L` (forward) and the
+inverted lens (backward) -/
+theorem cardinal_eval (S : PSys ℝ) (obj img s1 sk : PSurf ℝ) (L : List (PSurf ℝ))
+    (hS : S.surfs = obj :: L ++ [img]) (hobj : obj.kind = .object) (himg : img.kind = .image)
+    (himgdy : img.dy = 0) (hstd : Std L) (h1 : L.head? = some s1) (hk : L.getLast? = some sk) :
+    let p := pfinal ⟨1, 0, s1.z⟩ L
+    let q := pfinal ⟨1, 0, 0⟩ (L.reverse.map (rv img.z))
+    f2 S = -1 / p.u ∧ F2 S = -(p.y + (img.z - sk.z) * p.u) / p.u ∧ f1 S = 1 / q.u ∧ F1 S = q.y / q.u := by
+  intro p q
+  cases L with
+  | nil => simp at h1
+  | cons s1' ss =>
+  simp only [List.head?_cons, Option.some.injEq] at h1
+  subst h1
+  have hk1 := (hstd s1' (by simp)).1
+  have hp1 : posOf S.surfs 1 = s1'.z := by rw [hS]; simp [posOf]
+  -- forward trace
+  have hfw : pfinal ⟨1, 0, s1'.z - 1⟩ S.surfs = pstepImg p img := by
+    rw [hS, pfinal_append]
+    rw [show pfinal (⟨1, 0, s1'.z - 1⟩ : PRay ℝ) (obj :: s1' :: ss) =
+      pfinal (pstep ⟨1, 0, s1'.z - 1⟩ obj) (s1' :: ss) from rfl]
+    have e0 : pstep (⟨1, 0, s1'.z - 1⟩ : PRay ℝ) obj = ⟨1, 0, s1'.z - 1⟩ := by simp only [pstep, hobj]
+    rw [e0, pfinal_slide s1' ss 1 0 (s1'.z - 1) s1'.z hk1]
+    have e : (⟨1 + (s1'.z - (s1'.z - 1)) * 0, 0, s1'.z⟩ : PRay ℝ) = ⟨1, 0, s1'.z⟩ := by
+      congr 1; ring
+    rw [e]
+    show pfinal p [img] = _
+    simp only [pfinal_cons, pfinal_nil, pstep, himg]
+  have hne : S.surfs ≠ [] := by rw [hS]; simp
+  have hpz : p.z = sk.z := pfinal_z_last _ sk _ hstd hk
+  have e2 : f2 S = -1 / p.u := by
+    simp only [f2, f2raw, traceGeneric, Bool.false_eq_true, if_false, List.drop_zero]
+    num_real
+    rw [hp1, last_us _ _ hne]
+    rw [show List.foldl pstep ⟨1, 0, s1'.z - 1⟩ S.surfs = pfinal ⟨1, 0, s1'.z - 1⟩ S.surfs from rfl, hfw]
+    conv_lhs => rw [hS]
+    rw [List.cons_append, first_ys]
+    simp only [pstep, hobj, pstepImg]
+  have e2' : F2 S = -(p.y + (img.z - sk.z) * p.u) / p.u := by
+    simp only [F2, traceGeneric, Bool.false_eq_true, if_false, List.drop_zero]
+    num_real
+    rw [hp1, last_us _ _ hne, last_ys _ _ hne]
+    rw [show List.foldl pstep ⟨1, 0, s1'.z - 1⟩ S.surfs = pfinal ⟨1, 0, s1'.z - 1⟩ S.surfs from rfl, hfw]
+    simp only [pstepImg]
+    num_real
+    rw [himgdy, hpz]
+    congr 1; ring
+  -- backward trace
+  have hl : S.surfs.getLast? = some img := by rw [hS]; exact List.getLast?_concat
+  have hinv : inverted S.surfs = rv img.z img :: ((s1' :: ss).reverse.map (rv img.z) ++ [rv img.z obj]) := by
+    rw [inverted_eq S.surfs img hl, hS]
+    simp [List.reverse_append, List.map_append]
+  have hp0 : posOf (inverted S.surfs) 0 = img.z - img.z := by rw [hinv]; simp [posOf, rv]
+  have hbw : pfinal ⟨1, 0, img.z - img.z - 1⟩ (inverted S.surfs) = q := by
+    rw [hinv, pfinal_cons, pfinal_append]
+    have hko : (rv img.z obj).kind = .object := hobj
+    have hki : (rv img.z img).kind = .image := himg
+    simp only [pstep, hko, hki, pfinal_cons, pfinal_nil, pstepImg]
+    num_real
+    simp only [q]
+    have hstd' := Std_rv img.z (s1' :: ss) hstd
+    cases hFR : (s1' :: ss).reverse.map (rv img.z) with
+    | nil => simp at hFR
+    | cons t1 ts =>
+      rw [hFR] at hstd'
+      rw [pfinal_slide t1 ts _ _ _ 0 (hstd' t1 (by simp)).1]
+      congr 2
+      have : (rv img.z img).dy = 0 := himgdy
+      rw [this]; ring
+  have hnei : inverted S.surfs ≠ [] := by rw [hinv]; simp
+  have e1 : f1 S = 1 / q.u := by
+    simp only [f1, traceGeneric, if_true, List.drop_zero]
+    num_real
+    rw [hp0, last_us _ _ hnei]
+    rw [show List.foldl pstep ⟨1, 0, img.z - img.z - 1⟩ (inverted S.surfs) =
+      pfinal ⟨1, 0, img.z - img.z - 1⟩ (inverted S.surfs) from rfl, hbw]
+    conv_lhs => rw [hinv]
+    rw [first_ys]
+    have hki : (rv img.z img).kind = .image := himg
+    have : (rv img.z img).dy = 0 := himgdy
+    simp only [pstep, hki, pstepImg]
+    num_real
+    rw [this]
+    congr 1; ring
+  have e1' : F1 S = q.y / q.u := by
+    simp only [F1, traceGeneric, if_true, List.drop_zero]
+    num_real
+    rw [hp0, last_us _ _ hnei, last_ys _ _ hnei]
+    rw [show List.foldl pstep ⟨1, 0, img.z - img.z - 1⟩ (inverted S.surfs) =
+      pfinal ⟨1, 0, img.z - img.z - 1⟩ (inverted S.surfs) from rfl, hbw]
+  exact ⟨e2, e2', e1, e1'⟩
+
+/-- time reversal for the unit-height parallel ray: the ray `q` leaving the inverted lens, reversed and
+traced forward, leaves the lens at height 1 parallel to the axis -/
+theorem cardinal_roundtrip (L : List (PSurf ℝ)) (s1 : PSurf ℝ) (zl : ℝ) (hstd : Std L)
+    (h1 : L.head? = some s1) :
+    let q := pfinal ⟨1, 0, 0⟩ (L.reverse.map (rv zl))
+    (pfinal ⟨q.y, -q.u, s1.z⟩ L).y = 1 ∧ (pfinal ⟨q.y, -q.u, s1.z⟩ L).u = 0 := by
+  intro q
+  cases L with
+  | nil => simp at h1
+  | cons s1' ss =>
+  simp only [List.head?_cons, Option.some.injEq] at h1
+  subst h1
+  have hstd' := Std_rv zl (s1' :: ss) hstd
+  have hinv := rv_involution zl (s1' :: ss)
+  have hqz : q.z = zl - s1'.z := by
+    simp only [q, List.reverse_cons, List.map_append, List.map_cons, List.map_nil]
+    rw [pfinal_z _ _ _ (show (rv zl s1').kind = .standard from (hstd s1' (by simp)).1)]
+    rfl
+  cases hFR : (s1' :: ss).reverse.map (rv zl) with
+  | nil => simp at hFR
+  | cons t1 ts =>
+    rw [hFR] at hstd' hinv
+    have hrt := reverse_trace ts t1 ⟨1, 0, 0⟩ zl hstd'
+    simp only at hrt
+    rw [hinv, ← hFR] at hrt
+    have hg : pfinal ⟨q.y, -q.u, s1'.z⟩ (s1' :: ss) = ⟨1 + (t1.z - 0) * 0, -0, zl - t1.z⟩ := by
+      rw [← hrt]
+      congr 2
+      rw [show pfinal ⟨1, 0, 0⟩ ((s1' :: ss).reverse.map (rv zl)) = q from rfl, hqz]
+      ring
+    rw [hg]
+    constructor <;> simp
+
+
+/-- `S` is a lens in optiland's layout: object surface, a non-empty list `L` of axially symmetric standard
+surfaces with non-zero indices (first `s1`, last `sk`; refracting or reflecting), image surface -/
+structure IsLens (S : PSys ℝ) (obj img s1 sk : PSurf ℝ) (L : List (PSurf ℝ)) : Prop where
+  surfs : S.surfs = obj :: L ++ [img]
+  hobj : obj.kind = .object
+  himg : img.kind = .image
+  himgdy : img.dy = 0
+  std : Std L
+  head : L.head? = some s1
+  last : L.getLast? = some sk
+
+theorem IsLens.ne_nil {S : PSys ℝ} {obj img s1 sk : PSurf ℝ} {L : List (PSurf ℝ)}
+    (h : IsLens S obj img s1 sk L) : L ≠ [] := by
+  intro hn; have := h.head; rw [hn] at this; simp at this
+
+theorem IsLens.cons {S : PSys ℝ} {obj img s1 sk : PSurf ℝ} {L : List (PSurf ℝ)}
+    (h : IsLens S obj img s1 sk L) : ∃ ss, L = s1 :: ss := by
+  cases L with
+  | nil => exact absurd rfl h.ne_nil
+  | cons a ss => have := h.head; simp at this; exact ⟨ss, by rw [this]⟩
+
+/-- a ray given on the first vertex plane leaves the lens as the vertex-to-vertex matrix says -/
+theorem IsLens.matrix {S : PSys ℝ} {obj img s1 sk : PSurf ℝ} {L : List (PSurf ℝ)}
+    (h : IsLens S obj img s1 sk L) (y u : ℝ) :
+    pfinal ⟨y, u, s1.z⟩ L = ⟨(sysMat s1.z L).a * y + (sysMat s1.z L).b * u,
+      (sysMat s1.z L).c * y + (sysMat s1.z L).d * u, sk.z⟩ := by
+  have h1 := pfinal_eq_sysMat L ⟨y, u, s1.z⟩ (Std_WF L h.std) h.ne_nil
+  have h2 := pfinal_z_last L sk ⟨y, u, s1.z⟩ h.std h.last
+  cases hp : pfinal ⟨y, u, s1.z⟩ L with
+  | mk y' u' z' =>
+    rw [hp] at h1 h2
+    simp only at h1 h2
+    rw [h1.1, h1.2, h2]
+
+/-- the same for a ray given at any axial position in object space -/
+theorem IsLens.matrix_at {S : PSys ℝ} {obj img s1 sk : PSurf ℝ} {L : List (PSurf ℝ)}
+    (h : IsLens S obj img s1 sk L) (y u z : ℝ) :
+    pfinal ⟨y, u, z⟩ L = ⟨(sysMat s1.z L).a * (y + (s1.z - z) * u) + (sysMat s1.z L).b * u,
+      (sysMat s1.z L).c * (y + (s1.z - z) * u) + (sysMat s1.z L).d * u, sk.z⟩ := by
+  obtain ⟨ss, hL⟩ := h.cons
+  rw [← h.matrix]
+  conv_lhs => rw [hL]
+  conv_rhs => rw [hL]
+  exact pfinal_slide s1 ss y u z s1.z (h.std s1 (by rw [hL]; simp)).1
+
+/-- the image surface only transfers the ray to its plane -/
+theorem IsLens.to_image {S : PSys ℝ} {obj img s1 sk : PSurf ℝ} {L : List (PSurf ℝ)}
+    (h : IsLens S obj img s1 sk L) (r : PRay ℝ) :
+    (pfinal r (L ++ [img])).y = (pfinal r L).y + (img.z - (pfinal r L).z) * (pfinal r L).u ∧
+    (pfinal r (L ++ [img])).u = (pfinal r L).u := by
+  rw [pfinal_append]
+  simp only [pfinal_cons, pfinal_nil, pstep, h.himg, pstepImg]
+  num_real
+  rw [h.himgdy]
+  refine ⟨by ring, ?_⟩
+  trivial
+
+/-- **f2, F2 from the matrix.**  Convention (read off `pstepStd`): the ray vector is `(y, u)` with the
+*unreduced* slope `u`; refraction is `[[1,0],[−(n'−n)c/n', n/n']]`, so `C = −Φ/n'` and `det M = n/n'`.
+The model's `f2 = −1/C = n'/Φ` is the rear focal length (distance from `P2` to `F2`), and `F2` is the back
+focal distance `−A/C` from the last vertex, re-measured from the image surface. -/
+theorem f2_F2_from_matrix (S : PSys ℝ) (obj img s1 sk : PSurf ℝ) (L : List (PSurf ℝ))
+    (h : IsLens S obj img s1 sk L) :
+    let M := sysMat s1.z L
+    f2 S = -1 / M.c ∧ (M.c ≠ 0 → F2 S = -M.a / M.c - (img.z - sk.z)) := by
+  intro M
+  simp only [M]
+  clear M
+  obtain ⟨e2, e2', _, _⟩ := cardinal_eval S obj img s1 sk L h.surfs h.hobj h.himg h.himgdy h.std h.head h.last
+  have hm := h.matrix 1 0
+  rw [hm] at e2 e2'
+  simp only [mul_one, mul_zero, add_zero] at e2 e2'
+  refine ⟨e2, fun hC => ?_⟩
+  rw [e2']
+  field_simp
+  ring
+
+/-- **F2 is the back focal point and P2 the back principal plane**: a ray entering parallel to the axis at
+height `h` (launched anywhere in object space) reaches the image surface as `rf`; continued over the
+distance `F2` it is on the axis, continued over `P2 = F2 − f2` it has its entering height `h`
+(unit lateral magnification between the principal planes).  Guard `C ≠ 0`: the lens has power (for an
+afocal lens the code divides by `u[-1] = 0`). -/
+theorem principal_plane_unit_magnification (S : PSys ℝ) (obj img s1 sk : PSurf ℝ) (L : List (PSurf ℝ))
+    (h : IsLens S obj img s1 sk L) (hC : (sysMat s1.z L).c ≠ 0) (ht z0 : ℝ) :
+    let rf := pfinal ⟨ht, 0, z0⟩ (L ++ [img])
+    rf.y + F2 S * rf.u = 0 ∧ rf.y + P2 S * rf.u = ht := by
+  intro rf
+  obtain ⟨e2, e2'⟩ := f2_F2_from_matrix S obj img s1 sk L h
+  have e2'' := e2' hC
+  obtain ⟨hy, hu⟩ := h.to_image ⟨ht, 0, z0⟩
+  simp only [rf, P2, hy, hu, e2, e2'', h.matrix_at]
+  num_real
+  constructor <;> field_simp <;> ring
+
+/-- **f1, F1 from the matrix** (through the inverted lens and time reversal): `f1 = det M / C = −n/Φ`
+is the front focal length (negative for a positive lens: distance from `P1` to `F1`), `F1 = D/C` the
+position of the front focal point measured from the first vertex. -/
+theorem f1_F1_from_matrix (S : PSys ℝ) (obj img s1 sk : PSurf ℝ) (L : List (PSurf ℝ))
+    (h : IsLens S obj img s1 sk L) (hC : (sysMat s1.z L).c ≠ 0) :
+    let M := sysMat s1.z L
+    f1 S = M.det / M.c ∧ F1 S = M.d / M.c ∧ M.det ≠ 0 := by
+  intro M
+  simp only [M]
+  clear M
+  obtain ⟨_, _, e1, e1'⟩ := cardinal_eval S obj img s1 sk L h.surfs h.hobj h.himg h.himgdy h.std h.head h.last
+  obtain ⟨hy, hu⟩ := cardinal_roundtrip L s1 img.z h.std h.head
+  set q := pfinal ⟨1, 0, 0⟩ (L.reverse.map (rv img.z)) with hq
+  rw [h.matrix] at hy hu
+  simp only at hy hu
+  have hdet : (sysMat s1.z L).det * q.u = (sysMat s1.z L).c := by
+    simp only [M2.det]
+    linear_combination (sysMat s1.z L).c * hy - (sysMat s1.z L).a * hu
+  have hqu : q.u ≠ 0 := by
+    intro h0; rw [h0, mul_zero] at hdet; exact hC hdet.symm
+  have hd : (sysMat s1.z L).det ≠ 0 := by
+    intro h0; rw [h0, zero_mul] at hdet; exact hC hdet.symm
+  refine ⟨?_, ?_, hd⟩
+  · rw [e1, ← hdet]; field_simp
+  · rw [e1']
+    have : q.y = (sysMat s1.z L).d * q.u / (sysMat s1.z L).c := by
+      rw [eq_div_iff hC]; linear_combination hu
+    rw [this]; field_simp
+
+/-- **F1 is the front focal point and P1 the front principal plane**: a ray from the axial point `F1`
+(behind the first vertex) with any slope leaves the lens parallel to the axis, at the height it had (when
+continued) in the plane `P1 = F1 − f1`. -/
+theorem front_principal_plane_unit_magnification (S : PSys ℝ) (obj img s1 sk : PSurf ℝ) (L : List (PSurf ℝ))
+    (h : IsLens S obj img s1 sk L) (hC : (sysMat s1.z L).c ≠ 0) (u0 : ℝ) :
+    let g := pfinal ⟨0, u0, s1.z + F1 S⟩ L
+    g.u = 0 ∧ g.y = 0 + (s1.z + P1 S - (s1.z + F1 S)) * u0 := by
+  intro g
+  obtain ⟨e1, e1', _⟩ := f1_F1_from_matrix S obj img s1 sk L h hC
+  simp only [g, P1, e1, e1', h.matrix_at, M2.det]
+  constructor <;> field_simp <;> ring
+
+/-- **nodal points, positions**: both are displaced from the principal planes by `f1 + f2
+= (det M − 1)/C` (`= (n' − n)/Φ` for a refracting lens; `f1` is negative for a positive lens, so in air the
+nodal points coincide with the principal points). -/
+theorem nodal_points_positions (S : PSys ℝ) (obj img s1 sk : PSurf ℝ) (L : List (PSurf ℝ))
+    (h : IsLens S obj img s1 sk L) (hC : (sysMat s1.z L).c ≠ 0) :
+    N1 S - P1 S = f1 S + f2 S ∧ N2 S - P2 S = f1 S + f2 S ∧
+    f1 S + f2 S = ((sysMat s1.z L).det - 1) / (sysMat s1.z L).c := by
+  obtain ⟨e1, _, _⟩ := f1_F1_from_matrix S obj img s1 sk L h hC
+  obtain ⟨e2, _⟩ := f2_F2_from_matrix S obj img s1 sk L h
+  simp only [N1, N2]
+  num_real
+  refine ⟨by ring, by ring, ?_⟩
+  rw [e1, e2]; field_simp; ring
+
+/-- **nodal points, unit angular magnification**: a ray aimed at `N1` (measured from the first vertex)
+reaches the image surface with its slope unchanged and, continued over the distance `N2`, is on the axis:
+it emerges from `N2` parallel to itself.  No restriction to `n = n'` (nor to refracting lenses) is needed:
+the code's `N = P + f1 + f2` is right in general because `f1` comes from the reverse trace, `f1 = det M/C`. -/
+theorem nodal_points_unit_angular_magnification (S : PSys ℝ) (obj img s1 sk : PSurf ℝ) (L : List (PSurf ℝ))
+    (h : IsLens S obj img s1 sk L) (hC : (sysMat s1.z L).c ≠ 0) (u0 : ℝ) :
+    let rf := pfinal ⟨0, u0, s1.z + N1 S⟩ (L ++ [img])
+    rf.u = u0 ∧ rf.y + N2 S * rf.u = 0 := by
+  intro rf
+  obtain ⟨e1, e1', _⟩ := f1_F1_from_matrix S obj img s1 sk L h hC
+  obtain ⟨e2, e2'⟩ := f2_F2_from_matrix S obj img s1 sk L h
+  have e2'' := e2' hC
+  obtain ⟨hy, hu⟩ := h.to_image ⟨0, u0, s1.z + N1 S⟩
+  simp only [rf, hy, hu, h.matrix_at]
+  simp only [N1, N2, P1, P2, e1, e1', e2, e2'', M2.det]
+  num_real
+  constructor <;> field_simp <;> ring
+
+
+/-- index behind the last surface of `L` (entered from index `n`) -/
+noncomputable def nOut (n : ℝ) (L : List (PSurf ℝ)) : ℝ := (L.getLast?.map (·.n2)).getD n
+
+theorem nOut_cons (n : ℝ) (s : PSurf ℝ) (ss : List (PSurf ℝ)) : nOut n (s :: ss) = nOut s.n2 ss := by
+  cases ss with
+  | nil => simp [nOut]
+  | cons a l =>
+    simp only [nOut, List.getLast?_cons_cons]
+    cases h : (a :: l).getLast? with
+    | none => simp at h
+    | some x => rfl
+
+theorem det_mul (a b : M2) : (a.mul b).det = a.det * b.det := by
+  simp only [M2.mul, M2.det]; ring
+
+/-- **determinant of the system matrix** of a refracting lens: `det M = n/n'` (unreduced slopes) -/
+theorem sysMat_det_refracting : ∀ (L : List (PSurf ℝ)) (n z : ℝ), Chained n L → Std L →
+    (∀ s ∈ L, s.refl = false) → n ≠ 0 → (sysMat z L).det = n / nOut n L
+  | [], n, z, _, _, _, hn => by simp [sysMat, M2.one, M2.det, nOut, hn]
+  | s :: ss, n, z, hch, hstd, hr, hn => by
+    obtain ⟨hn1, _, hch'⟩ := hch
+    have hs := hstd s (by simp)
+    have ih := sysMat_det_refracting ss s.n2 s.z hch' (fun t ht => hstd t (by simp [ht]))
+      (fun t ht => hr t (by simp [ht])) hs.2.2.2
+    have hrs := hr s (by simp)
+    simp only [sysMat, hs.1, det_mul, ih, nOut_cons, elem, hrs, Bool.false_eq_true, if_false]
+    simp only [R, T, M2.det]
+    have := hs.2.2.2
+    rw [← hn1]
+    field_simp
+    ring
+
+/-- **f1/n = −f2/n'** for a refracting lens between media `n` (object space) and `n'` (image space) -/
+theorem focal_length_ratio (S : PSys ℝ) (obj img s1 sk : PSurf ℝ) (L : List (PSurf ℝ))
+    (h : IsLens S obj img s1 sk L) (hC : (sysMat s1.z L).c ≠ 0) (hch : Chained s1.n1 L)
+    (hr : ∀ s ∈ L, s.refl = false) :
+    f1 S = -(s1.n1 / sk.n2) * f2 S := by
+  obtain ⟨e1, _, _⟩ := f1_F1_from_matrix S obj img s1 sk L h hC
+  obtain ⟨e2, _⟩ := f2_F2_from_matrix S obj img s1 sk L h
+  obtain ⟨ss, hL⟩ := h.cons
+  have hn1 : s1.n1 ≠ 0 := (h.std s1 (by rw [hL]; simp)).2.2.1
+  have hd := sysMat_det_refracting L s1.n1 s1.z hch h.std hr hn1
+  have ho : nOut s1.n1 L = sk.n2 := by simp [nOut, h.last]
+  rw [e1, e2, hd, ho]
+  field_simp
+
+/-! ### non-vacuity: the singlet `demo` (lens + stop plane) is a lens with power -/
+theorem demo_lens : IsLens demo dObj dImg dS1 dStop [dS1, dS2, dStop] where
+  surfs := rfl
+  hobj := rfl
+  himg := rfl
+  himgdy := rfl
+  std := by
+    intro s hs; simp at hs
+    rcases hs with rfl | rfl | rfl <;> simp [dS1, dS2, dStop]
+  head := rfl
+  last := rfl
+
+theorem demo_matrix : sysMat dS1.z [dS1, dS2, dStop] = ⟨521/600, 49/6, -59/3000, 29/30⟩ := by
+  simp only [sysMat, elem, dS1, dS2, dStop, R, T, M2.mul, M2.one, Bool.false_eq_true, if_false, M2.mk.injEq]
+  norm_num
+
+theorem demo_power : (sysMat dS1.z [dS1, dS2, dStop]).c ≠ 0 := by rw [demo_matrix]; norm_num
+
+/-- the cardinal data of the demonstration singlet: rear focal length 3000/59 ≈ 50.85, front focal length
+the negative of it (lens in air), nodal points = principal points -/
+example : f2 demo = 3000/59 ∧ f1 demo = -(3000/59) ∧ N1 demo = P1 demo := by
+  obtain ⟨e2, _⟩ := f2_F2_from_matrix demo dObj dImg dS1 dStop _ demo_lens
+  obtain ⟨e1, _, _⟩ := f1_F1_from_matrix demo dObj dImg dS1 dStop _ demo_lens demo_power
+  obtain ⟨n1, _, n3⟩ := nodal_points_positions demo dObj dImg dS1 dStop _ demo_lens demo_power
+  simp only [demo_matrix, M2.det] at e1 e2 n3
+  refine ⟨by rw [e2]; norm_num, by rw [e1]; norm_num, ?_⟩
+  have : f1 demo + f2 demo = 0 := by rw [n3]; norm_num
+  linarith
+
+example (ht z0 : ℝ) : (pfinal ⟨ht, 0, z0⟩ ([dS1, dS2, dStop] ++ [dImg])).y +
+    P2 demo * (pfinal ⟨ht, 0, z0⟩ ([dS1, dS2, dStop] ++ [dImg])).u = ht :=
+  (principal_plane_unit_magnification demo dObj dImg dS1 dStop _ demo_lens demo_power ht z0).2
+
+example (u0 : ℝ) : (pfinal ⟨0, u0, dS1.z + F1 demo⟩ [dS1, dS2, dStop]).u = 0 :=
+  (front_principal_plane_unit_magnification demo dObj dImg dS1 dStop _ demo_lens demo_power u0).1
+
+example (u0 : ℝ) : (pfinal ⟨0, u0, dS1.z + N1 demo⟩ ([dS1, dS2, dStop] ++ [dImg])).u = u0 :=
+  (nodal_points_unit_angular_magnification demo dObj dImg dS1 dStop _ demo_lens demo_power u0).1
+
+example : f1 demo = -(dS1.n1 / dStop.n2) * f2 demo :=
+  focal_length_ratio demo dObj dImg dS1 dStop _ demo_lens demo_power (by simp [Chained, dS1, dS2, dStop])
+    (by intro s hs; simp at hs; rcases hs with rfl | rfl | rfl <;> rfl)
+
+
+/-- **EPD_def / FNO_def, aperture given as entrance-pupil diameter** -/
+theorem EPD_FNO_def_EPD (S : PSys ℝ) (h : S.apType = .EPD) :
+    EPD S = S.apValue ∧ FNO S = |f2 S| / S.apValue := by
+  simp only [EPD, FNO, h]
+  num_real
+  exact ⟨trivial, trivial⟩
+
+/-- **EPD_def / FNO_def, aperture given as image-space F-number**; the two are consistent
+(`FNO = |f2|/EPD`) when the lens has a non-zero focal length and the F-number is not 0 -/
+theorem EPD_FNO_def_imageFNO (S : PSys ℝ) (h : S.apType = .imageFNO) :
+    FNO S = S.apValue ∧ EPD S = |f2 S| / S.apValue ∧
+    (f2 S ≠ 0 → S.apValue ≠ 0 → FNO S = |f2 S| / EPD S) := by
+  simp only [EPD, FNO, h]
+  num_real
+  refine ⟨trivial, trivial, fun h2 hv => ?_⟩
+  have : |f2 S| ≠ 0 := abs_ne_zero.mpr h2
+  field_simp
+
+/-- **EPD_def / FNO_def, aperture given as object-space NA**: the marginal ray leaves the axial object
+point at the angle `asin(NA/n₀)` and the pupil diameter is twice its height `z·tan` in the plane `EPL`
+(taken as a global coordinate, as in `marginal_ray`); `tan(asin x) = x/√(1−x²)`. -/
+theorem EPD_FNO_def_objectNA (S : PSys ℝ) (obj : PSurf ℝ) (rest : List (PSurf ℝ)) (hS : S.surfs = obj :: rest)
+    (h : S.apType = .objectNA) :
+    EPD S = 2 * (EPL S - obj.z) * Real.tan (Real.arcsin (S.apValue / obj.n2)) ∧
+    EPD S = 2 * (EPL S - obj.z) * ((S.apValue / obj.n2) / Real.sqrt (1 - (S.apValue / obj.n2) ^ 2)) ∧
+    FNO S = |f2 S| / EPD S := by
+  have e : EPD S = 2 * (EPL S - obj.z) * Real.tan (Real.arcsin (S.apValue / obj.n2)) := by
+    simp only [EPD, h, hS, posOf, List.map_cons, List.getD_cons_zero, List.headD_cons]
+    num_real
+  refine ⟨e, ?_, ?_⟩
+  · rw [e, Real.tan_arcsin]
+  · simp only [FNO, h]
+    num_real
+
+/-! ### magnification -/
+
+/-- Lagrange invariant between launch and exit of a surface list -/
+theorem pfinal_lagrange : ∀ (ss : List (PSurf ℝ)) (a b : PRay ℝ) (σ n : ℝ), a.z = b.z → Chained n ss →
+    WFL ss → lag (ss.foldl sgnIdx σ) (nOut n ss) (pfinal a ss) (pfinal b ss) = lag σ n a b
+  | [], _, _, _, _, _, _, _ => by simp [nOut, pfinal_nil]
+  | s :: ss, a, b, σ, n, hz, hch, hwf => by
+    obtain ⟨hn1, hmir, hch'⟩ := hch
+    have hs := hwf s (by simp)
+    obtain ⟨hstep, hz'⟩ := pstep_lagrange a b s σ hz hs.1 hs.2 hmir
+    rw [nOut_cons, pfinal_cons, pfinal_cons, List.foldl_cons,
+      pfinal_lagrange ss _ _ _ _ hz' hch' (fun t ht => hwf t (by simp [ht])), hstep, hn1]
+
+/-- a list without mirrors keeps the orientation -/
+theorem sgn_refracting (σ : ℝ) : ∀ (ss : List (PSurf ℝ)), (∀ s ∈ ss, s.refl = false) → ss.foldl sgnIdx σ = σ
+  | [], _ => rfl
+  | s :: ss, h => by
+    have hs := h s (by simp)
+    rw [List.foldl_cons]
+    have : sgnIdx σ s = σ := by simp [sgnIdx, hs]
+    rw [this]
+    exact sgn_refracting σ ss (fun t ht => h t (by simp [ht]))
+
+/-- the code's expression: `n[0]·u[0] / (n[-1]·u[-1])` of the marginal ray -/
+theorem magnification_eq (S : PSys ℝ) (obj img : PSurf ℝ) (L : List (PSurf ℝ))
+    (hS : S.surfs = obj :: L ++ [img]) (hobj : obj.kind = .object) :
+    magnification S = obj.n2 * (marginalLaunch S).u /
+      (img.n2 * (pfinal (marginalLaunch S) (L ++ [img])).u) := by
+  simp only [magnification, marginalRay_eq]
+  num_real
+  have hne : S.surfs ≠ [] := by rw [hS]; simp
+  rw [last_us _ _ hne]
+  have e1 : first (us (ptrace (marginalLaunch S) S.surfs)) = (marginalLaunch S).u := by
+    rw [hS, List.cons_append, first_us]; simp only [pstep, hobj]
+  have e2 : List.foldl pstep (marginalLaunch S) S.surfs = pfinal (marginalLaunch S) (L ++ [img]) := by
+    rw [hS, List.cons_append, List.foldl_cons]; simp only [pstep, hobj]; rfl
+  have e3 : first (nList S) = obj.n2 := by simp [first, nList, hS]
+  have e4 : last (nList S) = img.n2 := by
+    simp only [last, nList, hS, List.map_append, List.map_cons, List.map_nil]
+    rw [List.getLastD_eq_getLast?, List.getLast?_concat]
+    rfl
+  rw [e1, e2, e3, e4]
+
+/-- **magnification_def**: finite object; `b` is any ray from the object point at height `ht`; if the image
+surface is the paraxial image plane (the marginal ray meets the axis there), `b` reaches the image surface
+at height `σ·m·ht`, where `m` is the model's `magnification` and `σ = (−1)^{number of mirrors}`
+(`List.foldl sgnIdx 1`).  For refracting lenses `σ = 1` (corollary below); for an odd number of mirrors the
+code's `magnification` has the opposite sign of the lateral magnification (example below). -/
+theorem magnification_def (S : PSys ℝ) (obj img : PSurf ℝ) (L : List (PSurf ℝ))
+    (hS : S.surfs = obj :: L ++ [img]) (hobj : obj.kind = .object) (hfin : S.objInf = false)
+    (hch : Chained obj.n2 (L ++ [img])) (hwf : WFL (L ++ [img]))
+    (himage : (pfinal (marginalLaunch S) (L ++ [img])).y = 0)
+    (hu : (pfinal (marginalLaunch S) (L ++ [img])).u ≠ 0) (ht ub : ℝ) :
+    (L ++ [img]).foldl sgnIdx 1 * (pfinal ⟨ht, ub, obj.z⟩ (L ++ [img])).y = magnification S * ht := by
+  have hml : marginalLaunch S = ⟨0, (marginalLaunch S).u, obj.z⟩ := by
+    simp [marginalLaunch, hfin, hS, posOf]
+  have hlag := pfinal_lagrange (L ++ [img]) (marginalLaunch S) ⟨ht, ub, obj.z⟩ 1 obj.n2
+    (by rw [hml]) hch hwf
+  have ho : nOut obj.n2 (L ++ [img]) = img.n2 := by simp [nOut]
+  have hn : img.n2 ≠ 0 := (hwf img (by simp)).2
+  rw [magnification_eq S obj img L hS hobj]
+  simp only [lag, ho, himage] at hlag
+  rw [hml] at hlag
+  simp only at hlag
+  rw [← hml] at hlag
+  field_simp
+  linear_combination hlag
+
+/-- refracting lens: the model's `magnification` is the lateral magnification `y_image / y_object` -/
+theorem magnification_def_refracting (S : PSys ℝ) (obj img : PSurf ℝ) (L : List (PSurf ℝ))
+    (hS : S.surfs = obj :: L ++ [img]) (hobj : obj.kind = .object) (hfin : S.objInf = false)
+    (hch : Chained obj.n2 (L ++ [img])) (hwf : WFL (L ++ [img])) (hr : ∀ s ∈ L ++ [img], s.refl = false)
+    (himage : (pfinal (marginalLaunch S) (L ++ [img])).y = 0)
+    (hu : (pfinal (marginalLaunch S) (L ++ [img])).u ≠ 0) (ht ub : ℝ) :
+    (pfinal ⟨ht, ub, obj.z⟩ (L ++ [img])).y = magnification S * ht := by
+  have := magnification_def S obj img L hS hobj hfin hch hwf himage hu ht ub
+  rw [sgn_refracting 1 _ hr, one_mul] at this
+  exact this
+
+
+/-! ### non-vacuity for the aperture definitions and the magnification -/
+example : EPD demo = 10 ∧ FNO demo = |f2 demo| / 10 := EPD_FNO_def_EPD demo rfl
+example : FNO { demo with apType := .imageFNO, apValue := 4 } = 4 :=
+  (EPD_FNO_def_imageFNO { demo with apType := .imageFNO, apValue := 4 } rfl).1
+example : EPD { demo with apType := .objectNA, apValue := 1/20 } =
+    2 * (EPL { demo with apType := .objectNA, apValue := 1/20 } - dObj.z) *
+      Real.tan (Real.arcsin (1/20 / dObj.n2)) :=
+  (EPD_FNO_def_objectNA { demo with apType := .objectNA, apValue := 1/20 } dObj _ rfl rfl).1
+
+theorem demo_ml : marginalLaunch demo = ⟨0, 10 / (2 * (4900/521 - -100)), -100⟩ := by
+  unfold marginalLaunch
+  rw [demo_EPL]
+  simp [EPD, demo, posOf, dObj]
+
+/-- every ray from the axial object point of `demo` meets the axis again on the image surface, with the
+slope reversed: the image surface of `demo` is the paraxial image plane and the imaging is 1:1 -/
+theorem demo_axial (u : ℝ) : (pfinal ⟨0, u, -100⟩ ([dS1, dS2, dStop] ++ [dImg])).y = 0 ∧
+    (pfinal ⟨0, u, -100⟩ ([dS1, dS2, dStop] ++ [dImg])).u = -u := by
+  simp only [pfinal, List.cons_append, List.nil_append, List.foldl_cons, List.foldl_nil, pstep, pstepStd,
+    pstepImg, dS1, dS2, dStop, dImg, Bool.false_eq_true, if_false]
+  num_real
+  constructor <;> ring
+
+theorem demo_chain : Chained dObj.n2 ([dS1, dS2, dStop] ++ [dImg]) ∧ WFL ([dS1, dS2, dStop] ++ [dImg]) ∧
+    ∀ s ∈ [dS1, dS2, dStop] ++ [dImg], s.refl = false := by
+  refine ⟨by simp [Chained, dObj, dS1, dS2, dStop, dImg], ?_, ?_⟩ <;>
+  · intro s hs; simp at hs
+    rcases hs with rfl | rfl | rfl | rfl <;> simp [dS1, dS2, dStop, dImg]
+
+/-- non-vacuity of `magnification_def_refracting`: the demonstration singlet images 1:1 inverted -/
+example (ht ub : ℝ) : (pfinal ⟨ht, ub, dObj.z⟩ ([dS1, dS2, dStop] ++ [dImg])).y = magnification demo * ht :=
+  magnification_def_refracting demo dObj dImg [dS1, dS2, dStop] rfl rfl rfl demo_chain.1 demo_chain.2.1
+    demo_chain.2.2 (by rw [demo_ml]; exact (demo_axial _).1)
+    (by rw [demo_ml, (demo_axial _).2]; norm_num) ht ub
+
+example : magnification demo = -1 := by
+  rw [magnification_eq demo dObj dImg [dS1, dS2, dStop] rfl rfl, demo_ml, (demo_axial _).2]
+  simp only [dObj, dImg]
+  norm_num
+
+/-! ### the excluded case of `magnification_def_refracting`: one mirror.  A concave mirror (R = −100) with
+the object in its centre of curvature images it onto itself, inverted (lateral magnification −1); the model's
+`magnification` — like `Paraxial.magnification` — is +1, because the slope changes sign at the mirror while
+`optic.n()` does not. -/
+noncomputable def mObj : PSurf ℝ := ⟨.object, 0, -100, 0, 1, 1, false, false⟩
+noncomputable def mMir : PSurf ℝ := ⟨.standard, 0, 0, -100, 1, 1, true, true⟩
+noncomputable def mImg : PSurf ℝ := ⟨.image, 0, -100, 0, 1, 1, false, false⟩
+noncomputable def mirrorDemo : PSys ℝ := ⟨[mObj, mMir, mImg], .EPD, 10, .objectHeight, 5, false⟩
+
+theorem mirror_EPL : EPL mirrorDemo = 0 := by
+  have hsi : stopIndex mirrorDemo.surfs ≠ some 0 := by
+    simp [mirrorDemo, stopIndex, List.findIdx?_cons, mObj, mMir]
+  rw [EPL_eq mirrorDemo hsi]
+  obtain ⟨hy, hu⟩ := stopBack_last mirrorDemo mObj mMir mImg [] [mImg] rfl rfl rfl rfl
+    (by simp [mImg]) (1/10)
+  rw [hy, hu]
+  simp [pfinal_nil]
+
+example : magnification mirrorDemo = 1 ∧
+    (∀ ht ub : ℝ, (pfinal ⟨ht, ub, mObj.z⟩ ([mMir] ++ [mImg])).y = -1 * ht) ∧
+    (pfinal (marginalLaunch mirrorDemo) ([mMir] ++ [mImg])).y = 0 := by
+  have hml : marginalLaunch mirrorDemo = ⟨0, 1/20, -100⟩ := by
+    unfold marginalLaunch
+    rw [mirror_EPL]
+    simp [EPD, mirrorDemo, posOf, mObj]; norm_num
+  have htr : ∀ y u : ℝ, pfinal ⟨y, u, -100⟩ ([mMir] ++ [mImg]) = ⟨-y, u + y / 50, 0⟩ := by
+    intro y u
+    simp only [pfinal, List.cons_append, List.nil_append, List.foldl_cons, List.foldl_nil, pstep, pstepStd,
+      pstepImg, mMir, mImg, if_true]
+    num_real
+    simp only [PRay.mk.injEq]
+    refine ⟨by ring, by ring, by ring⟩
+  refine ⟨?_, ?_, ?_⟩
+  · rw [magnification_eq mirrorDemo mObj mImg [mMir] rfl rfl, hml, htr]
+    simp [mObj, mImg]
+  · intro ht ub
+    rw [show mObj.z = -100 from rfl, htr]; ring
+  · rw [hml, htr]; simp
+
+
+/-- **the invariant in object space**: with a refracting first surface, `invariant S` is
+`n (ȳ u − y ū)` of the marginal ray `(y,u)` and the chief ray `(ȳ,ū)` as launched, both taken in the plane of
+the first vertex, in the object-space index `n = n1` of surface 1. -/
+theorem invariant_object_space (S : PSys ℝ) (obj s1 : PSurf ℝ) (rest : List (PSurf ℝ))
+    (hS : S.surfs = obj :: s1 :: rest) (hobj : obj.kind = .object) (hk : s1.kind = .standard)
+    (hr : s1.refl = false) (hdy : s1.dy = 0) (hn2 : s1.n2 ≠ 0) :
+    let a := marginalLaunch S
+    let b := chiefLaunch S
+    invariant S = s1.n1 * ((b.y + (s1.z - b.z) * b.u) * a.u - (a.y + (s1.z - a.z) * a.u) * b.u) := by
+  intro a b
+  have ha : marginalRay S = a :: pstep a s1 :: ptrace (pstep a s1) rest := by
+    rw [marginalRay_eq, hS]; simp only [ptrace, pstep, hobj, a]
+  have hb : chiefRay S = b :: pstep b s1 :: ptrace (pstep b s1) rest := by
+    rw [chiefRay_eq, hS]; simp only [ptrace, pstep, hobj, b]
+  have hinv : invariant S = lag 1 s1.n2 (pstep a s1) (pstep b s1) := by
+    unfold invariant
+    rw [ha, hb]
+    simp only [nList, hS, nth, ys, us, List.map_cons, List.getD_cons_succ, List.getD_cons_zero, lag]
+    num_real
+    ring
+  have sa : pstep a s1 = pstep ⟨a.y + (s1.z - a.z) * a.u, a.u, s1.z⟩ s1 := by
+    simp only [pstep, hk]; exact pstepStd_slide a.y a.u a.z s1.z s1
+  have sb : pstep b s1 = pstep ⟨b.y + (s1.z - b.z) * b.u, b.u, s1.z⟩ s1 := by
+    simp only [pstep, hk]; exact pstepStd_slide b.y b.u b.z s1.z s1
+  have hl := (pstep_lagrange ⟨a.y + (s1.z - a.z) * a.u, a.u, s1.z⟩ ⟨b.y + (s1.z - b.z) * b.u, b.u, s1.z⟩
+    s1 1 rfl hdy hn2 (by
+      rintro (h | h)
+      · exact absurd hk h
+      · rw [hr] at h; exact absurd h (by simp))).1
+  have hs : sgnIdx 1 s1 = 1 := by simp [sgnIdx, hr]
+  rw [hs, ← sa, ← sb] at hl
+  rw [hinv, hl]
+  simp only [lag]
+  ring
+
+/-- **object at infinity, field angle θ**: `invariant S = −n · (EPD/2) · tan θ` -/
+theorem invariant_infinite_angle (S : PSys ℝ) (obj stop l s1 : PSurf ℝ) (front back rest : List (PSurf ℝ))
+    (hS : S.surfs = obj :: front ++ stop :: back) (hS1 : S.surfs = obj :: s1 :: rest)
+    (hl : S.surfs.getLast? = some l)
+    (hobj : obj.kind = .object) (hstop : stop.stop = true) (hback : ∀ s ∈ back, s.stop = false)
+    (hstd : Std front) (hft : S.fieldType = .angle) (hinf : S.objInf = true)
+    (hu : (pfinal ⟨0, 1/10, l.z - stop.z⟩ (front.reverse.map (rv l.z))).u ≠ 0)
+    (hk : s1.kind = .standard) (hr : s1.refl = false) (hdy : s1.dy = 0) (hn2 : s1.n2 ≠ 0) :
+    invariant S = -(s1.n1 * (EPD S / 2) * Real.tan (S.maxYField * (Real.pi / 180))) := by
+  have h1 := invariant_object_space S obj s1 rest hS1 hobj hk hr hdy hn2
+  have h2 := chiefRay_field_angle S obj stop l front back hS hl hobj hstop hback hstd hft hu
+  obtain ⟨_, h3, h4⟩ := marginalRay_def_infinite S hinf
+  simp only at h1
+  rw [h1, h4 s1.z, h3, h2]
+  ring
+
+/-- non-vacuity of `invariant_object_space` and `invariant_infinite_angle` -/
+example : invariant { demo with objInf := true } =
+    -(dS1.n1 * (EPD { demo with objInf := true } / 2) * Real.tan (5 * (Real.pi / 180))) :=
+  invariant_infinite_angle { demo with objInf := true } dObj dStop dImg dS1 [dS1, dS2] [dImg] [dS2, dStop, dImg]
+    rfl rfl rfl rfl rfl (by simp [dImg]) demo_std rfl rfl (by rw [demo_back.1]; norm_num) rfl rfl rfl
+    (by simp [dS1])
+
 
 end C04
